@@ -341,6 +341,7 @@ theorem applyOpt_none_iff (r : Built) (o : Opt) : applyOpt r o = none ↔ o = .p
     · simp [applyOpt, hp]
   | maxSize n => simp [applyOpt]
   | maxBackups n => simp [applyOpt]
+  | mask m => simp [applyOpt]
 
 theorem new_foldl_none_iff (opts : List Opt) (r : Built) :
     opts.foldl (fun acc o => match acc with | none => none | some r => applyOpt r o) (some r) = none
